@@ -43,7 +43,7 @@ PROPS = {
                 state=kinds("B", "S"), effects=eff("slash"), errnames=False),
     "C05": dict(profiles=["authority", "mixed"], monitors=["authority", "conservation"],
                 state=kinds("A"), effects=eff("transfer"), errnames=True),
-    "C06": dict(profiles=["money", "lifecycle"], monitors=["issueLaw", "batchDebit"],
+    "C06": dict(profiles=["money", "lifecycle"], monitors=["issueLaw", "batchDebit", "lifecycle"],
                 state=kinds("RQ", "CX", "AB", "AI"), effects=eff("ev", "transfer"), errnames=False),
     "C07": dict(profiles=["money", "bindings"], monitors=["issueLaw", "volumeLaw"],
                 state=kinds("RQ", "VO", "PR", "B"), effects=eff("transfer"), errnames=False),
@@ -69,7 +69,7 @@ PROPS = {
                 state=kinds("Q", "D", "B", "WD", "CX", "RQ", "RS", "AB", "EF", "OE"), effects=eff(), errnames=True),
     "C18": dict(profiles=["mixed", "lifecycle"], monitors=["issueLaw", "requests", "queryExact"],
                 state=kinds("Q", "CX", "RQ", "RS", "AI", "AB", "NQ", "XQ", "NH", "XH"), effects=eff(), errnames=False),
-    "C19": dict(profiles=["genesis"], monitors=["genesisLaw", "escrowBacked", "indexes"], state=lambda l: True,
+    "C19": dict(profiles=["genesis"], monitors=["genesisLaw", "escrowBacked", "indexes", "requests"], state=lambda l: True,
                 effects=eff("transfer"), errnames=False),
     "C20": dict(profiles=["mixed", "authority"], monitors=["noPanic"], state=lambda l: True,
                 effects=lambda l: True, errnames=False),
